@@ -133,7 +133,7 @@ static Run run_history(const Config &cfg,const std::vector<Tr> &alpha,const std:
 static std::string hist_str(const std::vector<Tr> &a,const std::vector<int> &h){ std::string s; for(size_t i=0;i<h.size();i++){ if(i) s+=" ; "; s+=a[h[i]].name; } return s; }
 
 static void bfs(const Config &cfg,int maxdepth,double deadline_s,const std::string &dir){ std::vector<Tr> alpha=alphabet(cfg); std::unordered_map<std::string,std::vector<int> > seen; std::deque<std::pair<std::string,int> > fr; Run r0=run_history(cfg,alpha,std::vector<int>(),dir); if(!r0.ok){ vf::violation(cfg.label+":"+r0.sig,r0.what+" [empty history, "+cfg.label+"]","\"config\":"+vf::jstr(cfg.label)+",\"history\":[]"); return; } seen[r0.canon]=std::vector<int>(); fr.push_back(std::make_pair(r0.canon,0)); uint64_t states=1,trans=0; int depth_done=0; bool complete=true;
-	while(!fr.empty()){ std::pair<std::string,int> cur=fr.front(); if(cur.second>=maxdepth) break; if(cur.second>depth_done){ depth_done=cur.second; if(vf::elapsed()>deadline_s){ complete=false; vf::C().exhaustive=false; break; } } fr.pop_front(); std::vector<int> h=seen[cur.first];
+	while(!fr.empty()){ std::pair<std::string,int> cur=fr.front(); if(cur.second>=maxdepth) break; if(cur.second>depth_done){ depth_done=cur.second; } if(vf::elapsed()>deadline_s){ complete=false; vf::C().exhaustive=false; break; } fr.pop_front(); std::vector<int> h=seen[cur.first];
 		for(size_t op=0;op<alpha.size();op++){ h.push_back(op); vf::announce(cfg.label+" "+hist_str(alpha,h)); Run r=run_history(cfg,alpha,h,dir); trans++; vf::eval(); if(!r.ok){ std::string hs; for(size_t i=0;i<h.size();i++) hs+=(i?",":"")+std::to_string(h[i]); vf::violation(cfg.label+":"+r.sig,r.what+" [history: "+hist_str(alpha,h)+"; "+cfg.label+"]","\"config\":"+vf::jstr(cfg.label)+",\"history\":["+hs+"],\"history_text\":"+vf::jstr(hist_str(alpha,h))); }
 			else { if(!seen.count(r.canon)){ seen[r.canon]=h; fr.push_back(std::make_pair(r.canon,cur.second+1)); states++; if(states%499==1) vf::sample("{\"config\":"+vf::jstr(cfg.label)+",\"history\":"+vf::jstr(hist_str(alpha,h))+",\"state\":"+vf::jstr(r.canon)+"}",8); } vf::outcome(cfg.label+r.canon); } h.pop_back(); } }
 	if(fr.empty()) vf::guard(("bfs_fixpoint:"+cfg.label).c_str()); vf::guard(("bfs_depth:"+cfg.label).c_str(),complete? (fr.empty()?depth_done+1:maxdepth):depth_done); vf::C().states+=states; vf::C().transitions+=trans; vf::C().traces+=trans+1; }
